@@ -158,6 +158,16 @@ def run(ck):
             if seq.blocks[e[1]]["cleanup"]:
                 continue
             bad.append(e)
+        # ... and every iteration really attempts its file patch
+        call_bbs = {bb for bb, t, c in ao if bb in il["body"]}
+        back = {(t_, il["head"]) for t_ in seq.preds()[il["head"]] if t_ in il["body"]}
+        start = il["some_edge"][1] if il["some_edge"] else il["head"]
+        r = cfg.reachable(seq, [start], disabled=back, blocked=call_bbs)
+        skipping = [t_ for (t_, h) in back if t_ in r]
+        ck.require(not skipping, "C13-R3", "every file patch of a patch is attempted (sequential)",
+                   "an iteration of the file-patch loop can go on to the next file patch without calling apply_one_file_patch: after the "
+                   "first failure the remaining files of the failing patch would get no reject", seq.where(il["next_term"]),
+                   ok_detail="apply_one_file_patch is on every path of an iteration")
         ck.require(not bad, "C13-R3", "sequential file-patch loop runs to exhaustion",
                    "the loop over the file patches of a patch can be left early through %s: later file patches of the failing patch "
                    "would not be attempted (missing rejects)" % bad, seq.where(il["next_term"]),
